@@ -91,6 +91,10 @@ func getReclaimMessageQueuesDetails(ssn *framework.Session, reclaimeeTask *pod_i
 	reclaimerJob *podgroup_info.PodGroupInfo, reclaimerQueue *queue_info.QueueInfo,
 	reclaimeeQueue *queue_info.QueueInfo,
 ) string {
+	if reclaimerQueue == nil || reclaimeeQueue == nil {
+		// e.g. a top-level leaf queue has no parent queue to report on
+		return ""
+	}
 	reclaimeeAllocatedResource := ssn.QueueAllocatedResources(reclaimeeQueue)
 	reclaimeeDeservedResource := ssn.QueueDeservedResources(reclaimeeQueue)
 	reclaimeeFairShare := ssn.QueueFairShare(reclaimeeQueue)
